@@ -151,10 +151,55 @@ def run_error_vector(vec):
     return problems
 
 
+def list_nd_check(U, cfg):
+    """A write with a LIST selection and an ndarray source puts the source's entries under the listed items "in the requested
+    item order": it must equal the same entries written one by one through single-item keys (which the specification's
+    vectors verify on their own).  Every spelling of the key, dict and tuple forms alike."""
+    key, xd = cfg["key"], cfg["xd"]
+    sel = {l: s_ for l, s_ in key}
+    seqs = []
+    for l in xd:
+        s_ = sel.get(l)
+        if s_ is None:
+            seqs.append((l, list(U.labels(l)), False))
+        elif s_["kind"] == "one":
+            seqs.append((l, [s_["item"]], True))
+        elif s_["kind"] == "list":
+            seqs.append((l, list(s_["items"]), False))
+        else:
+            seqs.append((l, list(U.labels(s_["dim"])), False))
+    shape = tuple(len(q) for _, q, single in seqs if not single)
+    nd = (np.arange(1, int(np.prod(shape)) + 1, dtype=float) + 0.5).reshape(shape) if shape else np.array(1.5)
+    problems = []
+    for sp_name, pykey in spellings(U, key):
+        x1 = U.array(xd, U.gen_values(1, xd, "num", gen_val, "C"), name="x")
+        x2 = U.array(xd, U.gen_values(1, xd, "num", gen_val, "C"), name="x")
+        try:
+            x1[pykey] = nd.copy()
+        except Exception:
+            continue        # (a combination the library does not take with an ndarray source: nothing is claimed)
+        for idx in np.ndindex(*shape):
+            it = iter(idx)
+            single_key = {}
+            for l, q, single in seqs:
+                lab = q[0] if single else q[next(it)]
+                single_key[l] = U.item(l, lab)
+            x2[single_key] = float(nd[idx])
+        if not np.array_equal(x1.values, x2.values):
+            bad = np.argwhere(x1.values != x2.values)[0]
+            problems.append(f"[num/{sp_name}] {{C06,C05}} an ndarray written through the list key {pykey!r} is not arranged in the requested item order: "
+                            f"entry {tuple(int(b) for b in bad)} is {x1.values[tuple(bad)]}, written item by item it is {x2.values[tuple(bad)]}")
+    return problems[:2]
+
+
 def run_vector(vec):
     cfg = vec["cfg"]
     if cfg["op"] == "geterr":
         return run_error_vector(vec)
+    if cfg["op"] == "set" and cfg["rhs"] == "num" and any(s_["kind"] == "list" for _, s_ in cfg["key"]):
+        extra = list_nd_check(universe_of(vec), cfg)
+        if extra:
+            return extra
     exp = vec["res"]
     U = universe_of(vec)
     problems = []
